@@ -1433,6 +1433,75 @@ def run(ctx):
                    "decided in Lean)", sreq2, simpl2)
     phase("pow2-rescaling")
 
+    # ---------------- round 5: the constructor in FIELD arithmetic on float64 callers' data --------
+    # classLogR rndF32 = VisibilityGraph.__init__ with its conversions (to_cy(., FIELD) of series and
+    # timings, np.arange(N, dtype=FIELD)) and the float kernels.  Generic doubles (not binary32
+    # numbers) for series *and* timings, all four flag combinations, NaN, default / given timings,
+    # wide power-of-two ranges.  Obligation where the stored data are order-faithful (FaithfulConv,
+    # decided in Lean: theorem class_f32_is_exact_on_stored_data — any correct implementation must
+    # agree) and for the horizontal graph (no arithmetic: class_f32_horizontal); elsewhere recorded.
+    # Oracle, independent of the model: on faithful stored data the adjacency must be the Fraction
+    # criterion of the *stored* float32 values.
+    creq, cfa, cimpl, cmeta = [], [], [], []
+    for cnum in range(160 if quick else 1600):
+        n = rng.randrange(2, 12)
+        xs = (nprng.rand(n) - 0.3) * 2.0 ** rng.randint(-30, 30)
+        kind = rng.choice(["doubles", "doubles", "thirds", "ramp"])
+        if kind == "thirds":
+            xs = np.array([rng.randint(-9, 9) / 3.0 for _ in range(n)])
+        tdef = rng.random() < 0.35
+        ts = None if tdef else np.cumsum(nprng.rand(n) + 0.25) * 2.0 ** rng.randint(-20, 20)
+        if kind == "ramp" and ts is not None:
+            xs = 0.3 * ts + nprng.rand(n) * float(ts[-1]) * 2.0 ** -rng.choice([18, 22, 24])
+        if rng.random() < 0.35:
+            xs[rng.randrange(n)] = np.nan
+        if rng.random() < 0.2:
+            xs[rng.randrange(n)] = xs[rng.randrange(n)]
+        missing, hor = rng.random() < 0.6, rng.random() < 0.3
+        xe = [None if np.isnan(v) else Fr(float(v)) for v in xs]
+        te = None if ts is None else [Fr(float(v)) for v in ts]
+        try:
+            vg = VG(xs.copy(), timings=None if ts is None else ts.copy(), missing_values=missing,
+                    horizontal=hor, silence_level=3)
+            obs = enc_mat(np.array(vg.adjacency))
+        except (ZeroDivisionError, IndexError) as e:
+            vg, obs = None, exc_name(e)
+        tenc = "-" if te is None else enc_vals(te)
+        creq.append(f"matR {enc_vals(xe)} {tenc} {int(missing)} {int(hor)}")
+        cfa.append(f"faithfulc {enc_vals(xe)} {tenc}")
+        cimpl.append(obs)
+        cmeta.append((xs, ts, missing, hor, vg))
+        ctx.count(f"float64-callers:{kind}:{'default' if tdef else 'given'}-timings:"
+                  f"{'horizontal' if hor else 'natural'}")
+        ctx.case(("matR", xs.tobytes().hex(), None if ts is None else ts.tobytes().hex(), missing, hor), True)
+    cf = common.driver(ctx.pid, cfa)
+    oreq, oimpl, rreq2, rimpl2 = [], [], [], []
+    for rq, f, obs, (xs, ts, missing, hor, vg) in zip(creq, cf, cimpl, cmeta):
+        if hor or f == "1":
+            oreq.append(rq)
+            oimpl.append(obs)
+        else:
+            rreq2.append(rq)
+            rimpl2.append(obs)
+        if f == "1" and not hor and vg is not None and (missing or not np.isnan(xs).any()):
+            # independent of the model: the criterion on the values the object stores
+            xst = [None if np.isnan(v) else Fr(float(v)) for v in vg.time_series]
+            tst = [Fr(float(v)) for v in vg.timings]
+            E = enc_mat(expected_adjacency(xst, tst, False))
+            if obs != E:
+                ctx.fail(sig(missing, False, "float64-caller-data", bool(np.isnan(xs).any())),
+                         "natural graph of float64 data differs from the exact criterion on the stored "
+                         "float32 values (stored data order-faithful)",
+                         {"x": [float(v) for v in xs], "t": None if ts is None else [float(v) for v in ts],
+                          "expected": E, "observed": obs})
+    ctx.correspond("Lean classLogR rndF32 (constructor incl. FIELD conversions, float kernels) == "
+                   "VisibilityGraph on float64 callers' series and timings (stored data order-faithful, "
+                   "or horizontal)", oreq, oimpl)
+    rmod = common.driver(ctx.pid, rreq2)
+    ctx.extra["constructor_float_model_on_non_faithful_data"] = {
+        "requests": len(rreq2), "agree": sum(a == b for a, b in zip(rmod, rimpl2))}
+    phase("constructor-float32")
+
     # ---------------- round 3: the float kernel never invents a link ---------------------------
     # Data on which every difference x[k]-x[i], t[k]-t[i] is a float32 number (ExactDiffs, decided
     # by the Lean driver) but distinct slopes may round to the same float32 (nearly collinear
